@@ -1255,7 +1255,10 @@ def run_deco(case):
                 name, step, op, e1), step))
         if go is None and e1 is None:        # an accepted request without output grid may have built an element
             forwarded.append((gi, None if wl is None else wl_key(wl)))
-        # ---- correspondence with the model
+        # ---- correspondence with the model (given up for this history once the private state cannot be read;
+        #      the oracle keeps running)
+        if issues:
+            continue
         try:
             i_name = '-' if gi is None else gname(gi)
             o_name = '-' if go is None else gname(go)
@@ -1284,7 +1287,6 @@ def run_deco(case):
             expect.append(exp)
         except Exception as e:
             issues.append('step %d: %r' % (step, e))
-            break
     return bad, lines, expect, issues, counts
 
 
@@ -1710,6 +1712,12 @@ def run(ctx):
             n = int(ctx.rng.integers(3, 10))
             ops = [[int(ctx.rng.integers(0, 2)), str(ctx.rng.choice(FDT)), list(FTS[int(ctx.rng.integers(0, len(FTS)))]),
                     int(ctx.rng.integers(0, 1 << 30))] for _ in range(n)]
+            if j == 0:
+                # directed: one component of the state changes at a time (tensor shape at equal order and precision; precision
+                # at equal shape; order; direction; real fields)
+                ops = [[0, 'complex128', [2], 1], [0, 'complex128', [3], 2], [1, 'complex64', [3], 3], [1, 'complex64', [2], 4],
+                       [0, 'complex64', [], 5], [0, 'complex128', [], 6], [1, 'complex128', [2, 2], 7], [0, 'float64', [2, 2], 8],
+                       [0, 'float32', [2], 9], [1, 'float32', [3], 10], [1, 'complex128', [3], 11], [0, 'complex64', [3], 12]]
             bad, memo = run_fourier(name, ops, watchers)
             ctx.count('fourier:' + name.split(' ')[0])
             ctx.case(None, nontrivial_key=('fourier', name, j))
